@@ -174,6 +174,25 @@ func (e *mgrEngine) Step(ws []string, o *Out) string {
 		}
 		e.cs.AddNode(n)
 		return "ok"
+	case "compact":
+		// the periodic CompactLocal of the node's own gossip state (every 10 gossip intervals in
+		// production): what the node advertises must still be what is registered
+		thr := Atoi(ws[1])
+		panicked := false
+		func() {
+			defer func() {
+				if recover() != nil {
+					panicked = true
+				}
+			}()
+			e.gs.CompactLocal(thr)
+		}()
+		if panicked {
+			return "panic"
+		}
+		e.oracleCounts(o)
+		o.Count("compact")
+		return "ok " + e.show()
 	case "add":
 		uid, ep := Atoi(ws[1]), Unhx(ws[2])
 		e.mgr.AddConn(e.up(uid, ep))
@@ -480,6 +499,9 @@ func (e *mgrEngine) Gen(r *rand.Rand, n int, tier string, w *bufio.Writer) {
 				}
 			default:
 				fmt.Fprintf(w, "sel %s %d\n", Hx(ep), r.Intn(2))
+			}
+			if r.Intn(12) == 0 {
+				fmt.Fprintf(w, "compact %d\n", 1+r.Intn(3))
 			}
 		}
 		if c%4 == 0 {
